@@ -29,6 +29,7 @@ Bounded stand-in (never counted as an obligation): loop-back replay of the (meth
 a real DefaultVizierServer / DistributedPythiaVizierServer (replay/c08_grpc.py).
 """
 import ast
+import itertools
 import json
 import os
 import re
@@ -70,7 +71,8 @@ DS_CONTRACT = {
     'list_studies': [(_NF, ['missing_owner'], 'state')],
     'create_trial': [(_AE, ['exists_trial'], 'never')],
     'get_trial': [(_NF, ['missing_study', 'missing_trial'], 'state')],
-    'update_trial': [(_NF, ['missing_study', 'missing_trial'], 'state')],
+    # update_trial is only ever called with a trial read from the datastore earlier in the same RPC
+    'update_trial': [(_NF, ['missing_study'], 'state')],
     'delete_trial': [(_NF, ['missing_study', 'missing_trial'], 'state')],
     'list_trials': [(_NF, ['missing_study'], 'state')],
     'max_trial_id': [(_NF, ['missing_study'], 'state')],
@@ -84,11 +86,14 @@ DS_CONTRACT = {
     'update_early_stopping_operation': [(_NF, ['missing_operation'], 'never')],
     'update_metadata': [(_NF, ['missing_study'], 'state'), (_NF, ['missing_trial'], 'maybe')],
 }
+MAYBE_ONLY_IN = {'update_metadata': ('UpdateMetadata',)}
+AMBIENT_CREATED_BY = {'create_suggestion_operation': 'client_without_operations',
+                      'create_early_stopping_operation': 'no_early_stopping_operation'}
 DS_NEVER_REASON = ('create_* is called with a fresh key and get/update_*_operation with the name of an existing '
                    'operation (sequential client histories; races are C04, id reuse C12)')
 
 # ---- named outcomes -------------------------------------------------------------------------------------
-T_NOMEAS = 'other.ValueError@VizierServicer.CompleteTrial#1'
+T_NOMEAS = 'other.ValueError@rpc.CompleteTrial'
 T_BADNAME = 'other.ValueError@StudyResource.from_name#1'
 T_COUNT = 'other.ValueError@Study.optimal_trials#1'
 NAMED_OTHER = {T_NOMEAS: 'no_final_measurement', T_BADNAME: 'bad_study_name', T_COUNT: 'count_given'}
@@ -156,6 +161,7 @@ class C08Model(excflow.Model):
         self.h = hier
         self.ds_classes = ds_classes            # method -> {class name -> key}
         self.unknown_ds_methods = set()
+        self.summaries = {}
 
     def datastore_call(self, method, it):
         is_write = method.split('_')[0] in ('create', 'update', 'delete')
@@ -166,24 +172,43 @@ class C08Model(excflow.Model):
             key = self.ds_classes.get(method, {}).get(cname)
             if key is None:
                 continue
-            it.tags_seen.update(tags)
+            it.tags_seen.update(('maybe:' + t for t in tags) if mode == 'maybe' else tags)
             if mode == 'never':
                 continue
             if mode == 'ambient':
+                # e.g. "this client has no operation yet": may hold in any state; decided once per RPC and
+                # switched off by the create_* call of the same family
+                fam = tags[0]
+                if fam not in it.ambient:
+                    it.ambient[fam] = it.oracle.decide(('ds', fam))
+                if it.ambient[fam]:
+                    return key, is_write
+                continue
+            if mode == 'maybe':
+                # depends on the request content (does the metadata delta name a missing trial?): an unnamed condition.
+                # Metadata attached by a Pythia policy (SuggestTrials, CheckTrialEarlyStoppingState) is assumed to name
+                # existing trials only.
+                if it.rpc_name not in MAYBE_ONLY_IN.get(method, (it.rpc_name,)):
+                    continue
                 if it.oracle.decide(('ds', method, tags[0])):
+                    it.opaque_errors.append('datastore.%s: %s named by the request' % (method, tags[0]))
                     return key, is_write
                 continue
             if any(t in it.state for t in tags):
-                if mode == 'maybe' and not it.oracle.decide(('ds', method, tags[0])):
-                    continue
                 return key, is_write
+        fam = AMBIENT_CREATED_BY.get(method)
+        if fam is not None:
+            it.ambient[fam] = False
         return None, is_write
 
-    def classify(self, cls_key, qual, ordinal):
+    def classify(self, cls_key, qual, ordinal, it=None):
         if cls_key == M_CE + ':ImmutableStudyError':
             return 'immutable_study'
         if cls_key == M_CE + ':ImmutableTrialError':
             return 'immutable_trial'
+        if cls_key == 'builtins.ValueError' and it is not None and it.rpc_name == 'CompleteTrial' \
+                and qual.startswith('VizierServicer.'):
+            return T_NOMEAS          # "no final measurement and no intermediate one": the only ValueError of CompleteTrial
         return 'other.%s@%s#%d' % (self.h.short(cls_key), qual, ordinal)
 
     def setup_globals(self, it):
@@ -197,18 +222,17 @@ class C08Model(excflow.Model):
 
 
 # ------------------------------------------------------------------------------------------ helpers
+ORDER = ['missing_study', 'missing_owner', 'immutable_study', 'immutable_trial', 'missing_trial', T_NOMEAS, T_BADNAME, T_COUNT]
+
+
+def ordered(tags):
+    return tuple(sorted(tags, key=lambda t: ORDER.index(t) if t in ORDER else 99))
+
+
 def state_name(tags):
     if not tags:
         return 'ok'
-    order = {t: i for i, t in enumerate(PRIMARY + list(NAMED_OTHER))}
-    return '+'.join(NAMED_OTHER.get(t, t) if t in NAMED_OTHER else t for t in sorted(tags, key=lambda t: order.get(t, 99)))
-
-
-def tag_of_name(n):
-    for t, nm in NAMED_OTHER.items():
-        if nm == n:
-            return t
-    return n
+    return '+'.join(NAMED_OTHER.get(t, t) for t in ordered(tags))
 
 
 class Analysis:
@@ -275,7 +299,7 @@ class Analysis:
         ck = (mkey, frozenset(state), mode)
         if ck not in self.cache:
             key, name = mkey
-            ps = excflow.enumerate_paths(self.model, self.h, self.entry(key, name), state, mode)
+            ps = excflow.reduce_paths(excflow.enumerate_paths(self.model, self.h, self.entry(key, name), state, mode))
             for p in ps:
                 self.notes |= p.notes
                 self.all_tags |= p.tags_seen
@@ -438,8 +462,9 @@ def ob_handle_exception(chk, an):
                 if any(oc[0] == 'return' for oc, _ in res):
                     terminal = False
                     witness = witness or (k, res)
+            vague = any(code == '?' or (oc[0] == 'raise' and (oc[2] == '?' or oc[1] == '?unknown')) for oc, code in res)
             chk.obligation('C08.handle_exception.code.%s.%s' % (h.short(k), nm), 'handle_exception', 'paths',
-                           report.PROVED if ok else report.VIOLATED, time.time() - t0,
+                           report.PROVED if ok else (report.UNDECIDED if vague else report.VIOLATED), time.time() - t0,
                            detail={'expected': want, 'paths': [[list(oc), c] for oc, c in res]},
                            model='handle_exception(%s(), %s): %s, expected status %s' % (
                                h.short(k), 'None' if mode == 'L' else '<servicer context>', res, want),
@@ -454,15 +479,15 @@ def ob_handle_exception(chk, an):
         known_or_violated(chk, name, 'handle_exception', sig,
                           model='handle_exception(%s(), <servicer context>) -> %s: the handler keeps running after '
                                 'the error status was set (locally it raises LocalRpcError)' % (h.short(witness[0]), witness[1]),
-                          case=None, t=time.time() - t0)
+                          case={'method': 'Trial.delete', 'state': ['immutable_study'], 'check': 'effect'}, t=time.time() - t0)
 
 
 def known_or_violated(chk, name, function, sig, model, case, t=0.0, backend='paths'):
     """Residual-obligation rule (DESIGN 2.7): an open known finding covers exactly its recorded signature."""
     f = chk.finding_for(name)
     if f is not None and sorted(f.get('signature', [])) == sorted(sig):
-        chk.obligation(name, function, backend, report.KNOWN, t, detail={'signature': sig},
-                       finding='%s -- %s' % (name, f.get('what', '')))
+        chk.obligation(name, function, backend, report.KNOWN, t, detail={'signature': sig, 'root_cause': f.get('root_cause')},
+                       finding=f.get('what', name))
         KNOWN_USED.append((name, f, case))
         return 'known'
     detail = {'signature': sig}
@@ -478,12 +503,18 @@ KNOWN_USED = []
 PENDING = []        # violations to be confirmed by replay before they are reported
 
 
+STOPS_VS_GOES_ON = 'the local RPC stops at the error, the remote handler goes on and writes to the datastore'
+
+
 def pair_compare(an, mkey, state):
     """-> (class divergences, effect divergences, examples, n pairs) over the paired pure paths of the state."""
     L = [p for p in an.paths(mkey, state, 'L') if not p.opaque_errors]
     R = [p for p in an.paths(mkey, state, 'R') if not p.opaque_errors]
     cdiv, ediv, ex = set(), set(), {}
     n = 0
+    for p in L + R:
+        if p.outcome[0] == 'raise' and (p.outcome[1] == '?unknown' or p.outcome[2] == '?'):
+            raise excflow.Unsupported('an exception of unknown class or status code escapes (%s): %s' % (p.outcome, p.fired))
     for lp in L:
         for rp in R:
             if not lp.compatible(rp):
@@ -495,7 +526,10 @@ def pair_compare(an, mkey, state):
                 cdiv.add(s)
                 ex.setdefault(s, (lp, rp))
             if lp.writes != rp.writes:
-                s = 'local writes: %s | remote writes: %s' % (list(lp.writes), list(rp.writes))
+                if len(lp.writes) < len(rp.writes) and rp.writes[:len(lp.writes)] == lp.writes:
+                    s = STOPS_VS_GOES_ON
+                else:
+                    s = 'local writes: %s | remote writes: %s' % (list(lp.writes), list(rp.writes))
                 ediv.add(s)
                 ex.setdefault(s, (lp, rp))
     return cdiv, ediv, ex, n, L, R
@@ -503,7 +537,8 @@ def pair_compare(an, mkey, state):
 
 def explain(ex, s):
     lp, rp = ex[s]
-    return '%s\n  local path events: %s\n  remote path events: %s' % (s, lp.fired, rp.fired)
+    return '%s\n  local path: events %s, datastore writes %s\n  remote path: events %s, datastore writes %s' % (
+        s, lp.fired, list(lp.writes), rp.fired, list(rp.writes))
 
 
 def ob_method(chk, an, mkey, states_out):
@@ -519,10 +554,9 @@ def ob_method(chk, an, mkey, states_out):
     states = [()] + [(t,) for t in usable]
     base = [t for t in COMPOUND_BASE if t in usable]
     for r in (2, 3):
-        import itertools
         for combo in itertools.combinations(base, r):
             if consistent(combo):
-                states.append(combo)
+                states.append(ordered(combo))
     for st in states:
         sn = state_name(st)
         t0 = time.time()
@@ -547,7 +581,8 @@ def ob_method(chk, an, mkey, states_out):
                                        'remote': sorted({an.fmt(an.norm(p.outcome)) for p in R})})
             else:
                 sig = sorted(div)
-                known_or_violated(chk, oname, name, sig, model='\n'.join(explain(ex, s) for s in sig), case=case, t=dt / 2)
+                known_or_violated(chk, oname, name, sig, model='\n'.join(explain(ex, s) for s in sig),
+                                  case=dict(case, check='class' if fam == 'same_exception_class' else 'effect'), t=dt / 2)
     # unnamed other conditions: every path that entered an error block not decided by the state (class only)
     t0 = time.time()
     L = [p for p in an.paths(mkey, (), 'L') if p.opaque_errors]
@@ -588,7 +623,7 @@ def read_promises(an):
                 if not mm:
                     continue
                 for line in mm.group(1).splitlines():
-                    lm = re.match(r'\s*([A-Za-z_][A-Za-z_0-9.]*)\s*(:|\.|$)', line)
+                    lm = re.match(r'\s*([A-Za-z_][A-Za-z_0-9]*)\s*(:|\.|$)', line)
                     if lm:
                         out.append((c.replace('Interface', ''), meth, lm.group(1), line.strip(), dotted))
     return out
@@ -632,7 +667,7 @@ def ob_promised(chk, an):
                                   model='%s.%s in outcome %s under the %s contract: %s; promised: %s' % (
                                       cls, meth, state_name(st), nm, bad, line),
                                   case={'method': '%s.%s' % (cls, meth), 'state': [NAMED_OTHER.get(t, t) for t in st],
-                                        'deployment': mode, 'promised': h.short(want)}, t=time.time() - t0)
+                                        'deployment': mode, 'promised': h.short(want), 'check': 'promised'}, t=time.time() - t0)
     # behaviour promised by VizierClient.get_suggestions / relied upon by users: no suggestions from an inactive study
     for mkey in ((K_STUDY, 'suggest'), (K_VC, 'get_suggestions')):
         for mode, nm in (('L', 'local'), ('R', 'remote')):
@@ -648,7 +683,7 @@ def ob_promised(chk, an):
                                   model='%s on a study that is not active under the %s contract: %s; expected []' % (
                                       mname(mkey), nm, bad),
                                   case={'method': mname(mkey), 'state': ['immutable_study'], 'deployment': mode,
-                                        'promised': '[]'}, t=time.time() - t0)
+                                        'promised': '[]', 'check': 'promised'}, t=time.time() - t0)
 
 
 # ------------------------------------------------------------------------------------------ replay
@@ -689,98 +724,138 @@ def native_norm(x):
 
 
 def native_sig(an, c, a='L', b='R'):
-    """Divergence signature of a replayed case in the vocabulary of the analysis."""
+    """Divergence of a replayed case in the vocabulary of the analysis: (local, remote, class signature|None, effect|None)."""
     la, ra = native_norm(c.get(a)), native_norm(c.get(b))
     cls = eff = None
     if la is not None and ra is not None:
-        if (la[0], la[1] if la[0] == 'raise' else None, la[2] if la[0] == 'raise' else None) != \
-                (ra[0], ra[1] if ra[0] == 'raise' else None, ra[2] if ra[0] == 'raise' else None):
+        ka = (la[0],) + (tuple(la[1:]) if la[0] == 'raise' else ())
+        kb = (ra[0],) + (tuple(ra[1:]) if ra[0] == 'raise' else ())
+        if ka != kb:
             cls = 'local: %s | remote: %s' % (an.fmt(la), an.fmt(ra))
         if c[a].get('after') != c[b].get('after'):
             eff = {'local_after': c[a].get('after'), 'remote_after': c[b].get('after')}
     return la, ra, cls, eff
 
 
+def usable(c, deps=('L', 'R')):
+    return c is not None and all(d in c and 'result' in c[d] for d in deps)
+
+
+def case_id(case):
+    return '%s/%s' % (case['method'], '+'.join(case['state']) or 'ok')
+
+
+def replay_cases_for(case, cid):
+    """The native scenarios of an abstract case: a trial that cannot be modified is INFEASIBLE or SUCCEEDED."""
+    base = {'id': cid, 'method': case['method'], 'state': case['state']}
+    out = [base]
+    if 'immutable_trial' in case['state']:
+        out.append(dict(base, id=cid + '#succeeded', variant='succeeded'))
+    return out
+
+
+def reproduces(an, case, results, signature=None):
+    """Does the real code show what the (violated or known-finding) obligation says?  True / False / None (not run)."""
+    verdicts, native = [], []
+    for c in results:
+        if not usable(c):
+            continue
+        la, ra, cls, eff = native_sig(an, c)
+        native.append({'local': c['L'].get('result'), 'remote': c['R'].get('result'), 'class_divergence': cls,
+                       'effect_divergence': eff})
+        check = case.get('check', 'class')
+        if check == 'promised':
+            dep = case.get('deployment', 'L')
+            q = c[dep]['result']
+            if case.get('promised') == '[]':
+                verdicts.append(native_norm(c[dep]) != ('return', 'empty_list'))
+            else:
+                verdicts.append(not (q['kind'] == 'raise' and any(m.rsplit('.', 1)[-1] == case.get('promised') for m in q['mro'])))
+        elif check == 'effect':
+            verdicts.append(eff is not None)
+        else:
+            verdicts.append(cls is not None and (signature is None or cls in signature))
+    if not verdicts:
+        return None, native
+    return any(verdicts), native
+
+
 def confirm_pending(chk, an, tier):
-    """Replay every not-yet-known violation that has a native scenario; report it as violated (reproduced or with
-    no native scenario) or, when the real code contradicts the model, as undecided (spurious, DESIGN 2.5)."""
+    """Replay every not-yet-known violation that has a native scenario; report it as violated (reproduced, or no native
+    scenario exists) or, when the real code contradicts the model, as undecided (spurious model, DESIGN 2.5)."""
     if not PENDING:
         return
-    cases = []
-    for i, p in enumerate(PENDING):
+    cases, seen = [], set()
+    for p in PENDING:
         if p['case'] is not None:
-            c = dict(p['case'])
-            c['id'] = 'v%d' % i
-            cases.append(c)
+            for c in replay_cases_for(p['case'], case_id(p['case'])):
+                if c['id'] not in seen:
+                    seen.add(c['id'])
+                    cases.append(c)
     res = None
     if cases:
         res, err = run_replay(cases, ['L', 'R'], 'violations')
         if err:
             chk.note('replay of violations unavailable: %s' % err)
             res = None
-    for i, p in enumerate(PENDING):
+    for p in PENDING:
         reproduced, native = None, None
         if res is not None and p['case'] is not None:
-            c = res['cases'].get('v%d' % i)
-            if c and not any('setup_error' in c.get(d, {}) or 'unsupported' in c.get(d, {}) for d in ('L', 'R')):
-                la, ra, cls, eff = native_sig(an, c)
-                native = {'local': c['L'].get('result'), 'remote': c['R'].get('result'), 'class_divergence': cls,
-                          'effect_divergence': eff is not None}
-                if '.promised.' in p['name']:
-                    dep = p['case'].get('deployment', 'L')
-                    got = native_norm(c[dep])
-                    want = p['case'].get('promised')
-                    if want == '[]':
-                        reproduced = got != ('return', 'empty_list')
-                    else:
-                        q = c[dep]['result']
-                        reproduced = not (q['kind'] == 'raise' and any(m.rsplit('.', 1)[1] == want for m in q['mro']))
-                elif '.same_effect.' in p['name']:
-                    reproduced = eff is not None
-                else:
-                    reproduced = cls is not None
+            cid = case_id(p['case'])
+            rs = [res['cases'].get(c['id']) for c in replay_cases_for(p['case'], cid)]
+            reproduced, native = reproduces(an, p['case'], rs)
         detail = dict(p['detail'])
-        if native is not None:
+        if native:
             detail['native'] = native
         if reproduced is False:
             chk.obligation(p['name'], p['function'], p['backend'], report.UNDECIDED, p['t'],
-                           detail={'spurious': 'the path model predicts a divergence that the real code does not show',
-                                   'model': p['model'], **detail})
+                           detail=dict(detail, spurious='the path model predicts a divergence that the real code does not show',
+                                       model=p['model']))
         else:
             chk.obligation(p['name'], p['function'], p['backend'], report.VIOLATED, p['t'], detail=detail, model=p['model'],
                            replay={'case': p['case'], 'native': native,
-                                   'how': '/venv/bin/python /verif/replay/c08_grpc.py --case <method> <state...>'},
+                                   'how': '/venv/bin/python /verif/replay/c08_grpc.py --case %s %s' % (
+                                       (p['case'] or {}).get('method', '<method>'), ' '.join((p['case'] or {}).get('state', [])))},
                            reproduced=reproduced)
 
 
+# explicit extra scenarios of the thorough matrix: (method, replay state, variant, abstract state whose paths must contain it)
+EXTRA_MATRIX = [
+    ('Trial.update_metadata', ['missing_trial'], None),
+    ('VizierClient.update_metadata', ['missing_trial'], 'on_trial'),
+]
+
+
 def check_known_and_matrix(chk, an, tier, states_out):
-    """Known findings are re-reproduced (stale entry -> checker error).  Thorough tier: the whole matrix is replayed
+    """Known findings are re-reproduced (a stale entry is a checker error).  Thorough tier: the whole matrix is replayed
     as a bounded stand-in and compared with the path model."""
-    cases, index = [], {}
+    cases, index, have = [], {}, set()
+
+    def add(c, idx=None):
+        if c['id'] not in have:
+            have.add(c['id'])
+            cases.append(c)
+        if idx is not None:
+            index[c['id']] = idx
     if tier == 'thorough':
-        seen = set()
         for mkey, st, L, R in states_out:
-            nm = mname(mkey)
-            sn = state_name(st)
-            if (nm, sn) in seen:
-                continue
-            seen.add((nm, sn))
-            cid = '%s/%s' % (nm, sn)
-            cases.append({'id': cid, 'method': nm, 'state': [NAMED_OTHER.get(t, t) for t in st]})
-            index[cid] = (mkey, st, L, R)
-            if 'immutable_trial' in st:
-                cases.append({'id': cid + '#succeeded', 'method': nm, 'state': [NAMED_OTHER.get(t, t) for t in st],
-                              'variant': 'succeeded'})
-                index[cid + '#succeeded'] = (mkey, st, L, R)
+            case = {'method': mname(mkey), 'state': [NAMED_OTHER.get(t, t) for t in st]}
+            for c in replay_cases_for(case, case_id(case)):
+                add(c, (mkey, st))
+        for meth, st, variant in EXTRA_MATRIX:
+            c = {'id': '%s/%s%s' % (meth, '+'.join(st), '#' + variant if variant else ''), 'method': meth, 'state': st}
+            if variant:
+                c['variant'] = variant
+            cls = meth.split('.')[0]
+            mkey = ({'Study': K_STUDY, 'Trial': K_TRIAL, 'VizierClient': K_VC}[cls], meth.split('.', 1)[1])
+            add(c, (mkey, ()))
         deployments = ['L', 'R', 'P', 'Lr', 'Rr']
     else:
-        want = {}
-        for name, f, case in KNOWN_USED:
-            if case is not None and f.get('flagship'):
-                cid = '%s/%s' % (case['method'], '+'.join(case['state']) or 'ok')
-                want[cid] = {'id': cid, 'method': case['method'], 'state': case['state']}
-        cases = list(want.values())
         deployments = ['L', 'R']
+    for name, f, case in KNOWN_USED:
+        if case is not None and (tier == 'thorough' or f.get('flagship')):
+            for c in replay_cases_for(case, case_id(case)):
+                add(c)
     if not cases:
         return
     t0 = time.time()
@@ -789,83 +864,76 @@ def check_known_and_matrix(chk, an, tier, states_out):
         chk.error('C08.replay', err)
         return
     chk.note('loop-back replay: %d cases x %s in %.1fs.' % (len(cases), deployments, time.time() - t0))
-    # 1. every known finding that was used must still reproduce
+    # 1. every known finding that was used must still reproduce on the real code
+    n_known, not_run = 0, []
     for name, f, case in KNOWN_USED:
-        if case is None:
+        if case is None or not (tier == 'thorough' or f.get('flagship')):
             continue
-        cid = '%s/%s' % (case['method'], '+'.join(case['state']) or 'ok')
-        c = res['cases'].get(cid)
-        if c is None:
-            continue
-        la, ra, cls, eff = native_sig(an, c)
-        if '.promised.' in name:
-            dep = case.get('deployment', 'L')
-            q = c[dep].get('result', {})
-            if case.get('promised') == '[]':
-                ok = native_norm(c[dep]) != ('return', 'empty_list')
-            else:
-                ok = not (q.get('kind') == 'raise' and any(m.rsplit('.', 1)[1] == case.get('promised') for m in q.get('mro', [])))
-        elif '.same_effect.' in name:
-            ok = eff is not None
-        else:
-            ok = cls is not None and cls in f.get('signature', [])
-        if not ok:
+        rs = [res['cases'].get(c['id']) for c in replay_cases_for(case, case_id(case))]
+        ok, native = reproduces(an, case, rs, f.get('signature') if case.get('check', 'class') == 'class' else None)
+        n_known += 1
+        if ok is None:
+            not_run.append(case_id(case))
+        elif not ok:
             chk.error('C08.known_finding_stale.%s' % name,
-                      'the recorded known finding no longer reproduces on the real code (case %s: local %s, remote %s)' % (cid, la, ra))
+                      'the recorded known finding does not reproduce on the real code (case %s: %s)' % (case_id(case), native))
+    if not_run:
+        chk.error('C08.replay.setup', 'the scenarios of %d known findings could not be set up on the real code: %s' % (
+            len(not_run), sorted(set(not_run))[:6]))
     if tier != 'thorough':
-        chk.bounded_standin('C08.replay.flagship', '%d known-finding witnesses on a loop-back DefaultVizierServer' % len(cases),
+        chk.bounded_standin('C08.replay.flagship', '%d known-finding witnesses on a loop-back DefaultVizierServer' % n_known,
                             'reproduced', detail=sorted(c['id'] for c in cases))
         return
-    # 2. the matrix as bounded stand-in: native results must lie inside the path model; native divergences must be
-    #    predicted by an obligation that is a known finding (else: violation, reproduced)
-    mismatches, divergences, checked = [], [], 0
-    known_names = {n for n, _, _ in KNOWN_USED}
-    for cid, (mkey, st, L, R) in index.items():
+    # 2. the matrix as bounded stand-in: the real results must lie inside the path model, and every divergence between two
+    #    deployments must be covered by an obligation that is a known finding -- otherwise it is a violation (reproduced)
+    known_names = {n for n, _, _ in KNOWN_USED} | {o['obligation'] for o in chk.obligations if o['result'] == report.VIOLATED}
+    checked, n_div = 0, 0
+    for cid, (mkey, st) in sorted(index.items()):
         c = res['cases'].get(cid)
         if not c:
             continue
         nm, sn = mname(mkey), state_name(st)
-        for la_dep, ra_dep, dsname in (('L', 'R', 'sql'), ('Lr', 'Rr', 'ram'), ('R', 'P', 'pythia')):
-            if la_dep not in c or ra_dep not in c:
-                continue
-            if any('setup_error' in c[d] or 'unsupported' in c[d] for d in (la_dep, ra_dep)):
+        L, R = an.paths(mkey, st, 'L'), an.paths(mkey, st, 'R')
+        predL, predR = {an.norm(p.outcome) for p in L}, {an.norm(p.outcome) for p in R}
+
+        def inside(x, pred):
+            return any(x[0] == q[0] and (x[0] == 'return' or tuple(x[1:]) == tuple(q[1:])) for q in pred)
+        for da, db, label in (('L', 'R', 'sql'), ('Lr', 'Rr', 'ram'), ('R', 'P', 'pythia')):
+            if not usable(c, (da, db)):
                 continue
             checked += 1
-            la, ra, cls, eff = native_sig(an, c, la_dep, ra_dep)
-            if dsname == 'pythia':
+            la, ra, cls, eff = native_sig(an, c, da, db)
+            oname = 'C08.replay.%s.%s' % (cid.replace('/', '.'), label)
+            problems = []
+            if label == 'pythia':
                 if cls is not None or eff is not None:
-                    divergences.append((cid, dsname, 'C08.replay.%s.%s.pythia' % (nm, sn), cls or 'effect', c))
+                    problems.append(cls or 'effect differs between the single-server and the split-Pythia deployment')
+            else:
+                if cls is not None and 'C08.%s.same_exception_class.%s' % (nm, sn) not in known_names:
+                    problems.append(cls)
+                if eff is not None and 'C08.%s.same_effect.%s' % (nm, sn) not in known_names:
+                    problems.append('effect: the study differs afterwards')
+                if not problems and '#succeeded' not in cid and (not inside(la, predL) or not inside(ra, predR)):
+                    f = chk.finding_for(oname)
+                    if f is None:
+                        chk.error('C08.crosscheck.%s.%s' % (cid, label),
+                                  'the real code (local %s, remote %s) is outside the path model (local %s, remote %s)' % (
+                                      la, ra, sorted(predL), sorted(predR)))
+            if not problems:
                 continue
-            predL = {an.norm(p.outcome) for p in L}
-            predR = {an.norm(p.outcome) for p in R}
-
-            def inside(x, pred):
-                return any(x[0] == q[0] and (x[0] == 'return' or (x[1], x[2]) == (q[1], q[2])) for q in pred)
-            if not inside(la, predL) or not inside(ra, predR):
-                mismatches.append((cid, dsname, la, ra, sorted(predL), sorted(predR)))
-            if cls is not None and 'C08.%s.same_exception_class.%s' % (nm, sn) not in known_names:
-                divergences.append((cid, dsname, 'C08.replay.%s.%s.%s.class' % (nm, sn, dsname), cls, c))
-            if eff is not None and 'C08.%s.same_effect.%s' % (nm, sn) not in known_names:
-                divergences.append((cid, dsname, 'C08.replay.%s.%s.%s.effect' % (nm, sn, dsname), 'effect', c))
-    n_div = 0
-    for cid, dsname, oname, what, c in divergences:
-        f = chk.finding_for(oname)
-        if f is not None and what in (f.get('signature') or [what]):
-            chk.obligation(oname, cid, 'replay', report.KNOWN, 0.0, detail={'signature': [what]},
-                           finding='%s -- %s' % (oname, f.get('what', '')))
-            continue
-        n_div += 1
-        chk.obligation(oname, cid, 'replay', report.VIOLATED, 0.0,
-                       detail='deployments differ on the real code although the path model proves them equal',
-                       model=json.dumps({k: c[k].get('result') for k in c if k != 'case'}, default=str)[:3000],
-                       replay={'case': c.get('case'), 'observed': {k: c[k] for k in c if k != 'case'}}, reproduced=True)
-    for cid, dsname, la, ra, pl, pr in mismatches:
-        if chk.finding_for('C08.replay.%s.%s.class' % (cid.replace('/', '.').split('#')[0], dsname)) is not None:
-            continue            # explained by a recorded replay-level finding (an implicit exception the model does not see)
-        chk.error('C08.crosscheck.%s.%s' % (cid, dsname),
-                  'the real code (%s, %s) is outside the path model (local %s, remote %s)' % (la, ra, pl, pr))
-    chk.bounded_standin('C08.replay.matrix', '%d (client method x outcome) cases x deployments L/R/P on SQL-in-memory and '
-                        'L/R on the RAM datastore; %d comparisons' % (len(cases), checked),
+            f = chk.finding_for(oname)
+            if f is not None and sorted(f.get('signature', [])) == sorted(problems):
+                chk.obligation(oname, nm, 'replay', report.KNOWN, 0.0, detail={'signature': problems},
+                               finding=f.get('what', oname))
+                continue
+            n_div += 1
+            chk.obligation(oname, nm, 'replay', report.VIOLATED, 0.0,
+                           detail={'signature': problems, 'note': 'deployments differ on the real code; not covered by an '
+                                   'obligation recorded as known finding'},
+                           model=json.dumps({k: c[k].get('result') for k in c if k != 'case'}, default=str)[:3000],
+                           replay={'case': c.get('case'), 'observed': {k: c[k] for k in c if k != 'case'}}, reproduced=True)
+    chk.bounded_standin('C08.replay.matrix', '%d (client method x outcome) scenarios x deployments L/R/P on SQL-in-memory and '
+                        'L/R on the RAM datastore; %d pairwise comparisons' % (len(cases), checked),
                         'no unexplained divergence' if not n_div else '%d unexplained divergences' % n_div,
                         detail={'deployments': res.get('deployments')})
 
